@@ -241,6 +241,10 @@ RULE = ("pairs (old,new): old is a random indentation tree (depth 0..3, realisti
         "added, moved to another parent, siblings reordered), an independent tree, an identical copy, or empty; each side "
         "goes in as list, tuple, multi-line string (\\n, trailing \\n, \\r\\n), file path (scratch dir) or None/[]/()/'' "
         "when empty; syntax drawn from ios/nxos/iosxr/asa/junos; plus ill-typed inputs and unknown syntaxes. "
+        "cli stream (one tenth as many cases): the same pairs written to two files and run through the real entry point as "
+        "`ccp diff [-m diff|rollback] [-s SYNTAX] OLD NEW` (options present or absent), plus -m / -s values outside the argparse "
+        "choices (SystemExit) and a missing first or second file; CliApplication.stdout is compared with the model (channel "
+        "diffcli, inside the fragment) and judged by the same transformation oracle on the printed lines. "
         "A pair is INSIDE the plain fragment when no hierarchical line of either side (nor its 'no ' negation) is touched "
         "by a rule of the installed hier_config option tables for that OS, starts with 'banner ', 'no ', 'default ', "
         "'ip(v4|v6) access-list', or is changed by a per_line_sub rule; only those go to the Lean model. "
@@ -250,7 +254,9 @@ LEVEL_TEXT = ("PARTIAL. Theorems (Lean 4, all inputs of the plain fragment: no l
               "the loader guarantees): applying the diff's commands to the old config's hierarchical lines yields exactly the "
               "new config's; added lines are absent from old (or are section headers of deeper changes), removals name lines "
               "present in old and absent from new; diff(c,c) is empty; rollback(old,new)=diff(new,old); list/tuple/str/file/None "
-              "forms normalise to the same text. The model of hier_config's loader/diff/rendering is tied to the real "
+              "forms normalise to the same text; `ccp diff [-m] [-s] OLD NEW` prints exactly get_diff() / get_rollback() of the two files' "
+              "texts (cli_diff_is_api, defaults diff / ios), `-m rollback OLD NEW` = `-m diff NEW OLD` (cli_rollback_mirror), other "
+              "-m / -s values and missing files are rejected (cli_rejects). The model of hier_config's loader/diff/rendering is tied to the real "
               "Diff(...).get_diff()/get_rollback() by differential runs inside the fragment.")
 LEVEL_NOTE = ("hier_config is third-party: modelled, not verified, and only on the plain fragment derived at run time from its "
               "option tables. Outside the fragment (negated lines, idempotent lineages, comments, banners, ACL sections, "
@@ -498,14 +504,64 @@ def mk(old, new, oform, nform, syntax, tag, origin="gen"):
     return case
 
 
+def mk_cli(old, new, method, cli_syntax, missing, tag, origin="gen"):
+    """`ccp diff [-m method] [-s cli_syntax] OLDFILE NEWFILE`; missing = None / 0 / 1: that file does not exist"""
+    syntax = cli_syntax if cli_syntax is not None else "ios"
+    case = {"cli": True, "old": list(old), "new": list(new), "oform": "path", "nform": "path", "syntax": syntax,
+            "method": method, "cli_syntax": cli_syntax, "missing": missing,
+            "opath": f"{SCRATCH}/{tag}-old.cfg", "npath": f"{SCRATCH}/{tag}-new.cfg", "_origin": origin}
+    texts = case["old"] + case["new"] + [syntax, method or ""]
+    ok_wire = all(wire.wire_safe(t) and "\t" not in wire.enc_str(t) for t in texts)
+    plain = not pair_classes(case) if syntax in SYNTAXES else True
+    for lines in (case["old"], case["new"]):
+        c = file_content(lines)
+        if len(c.splitlines()) == 1 and os.path.exists(c):
+            plain = False       # Diff() would take the file's content for the name of another file
+    case["plain"] = bool(plain and ok_wire)
+    if case["plain"]:
+        opt = lambda v: "-" if v is None else wire.enc_str(v)  # noqa: E731
+        case["req"] = wire.req("diffcli", opt(method), opt(cli_syntax),
+                               wire.enc_str(case["opath"]), "-" if missing == 0 else wire.enc_str(file_content(case["old"])),
+                               wire.enc_str(case["npath"]), "-" if missing == 1 else wire.enc_str(file_content(case["new"])))
+    else:
+        case["req"] = None
+    return case
+
+
 def from_corpus(c):
+    if c.get("cli"):
+        return mk_cli(c["old"], c["new"], c.get("method"), c.get("cli_syntax"), c.get("missing"),
+                      "corpus-%08x" % (hash(json.dumps(c, sort_keys=True)) & 0xFFFFFFFF), "corpus")
     return mk(c["old"], c["new"], c.get("oform", "list"), c.get("nform", "list"), c.get("syntax", "ios"),
               "corpus-%08x" % (hash(json.dumps(c, sort_keys=True)) & 0xFFFFFFFF), "corpus")
+
+
+def gen_cli(rng, tag, outside):
+    old, new = gen_pair(rng, 0.25 if outside else 0.0)
+    method = rng.choice([None, "diff", "rollback", "rollback"])
+    cli_syntax = rng.choice([None, None, "ios"] + SYNTAXES)
+    missing = None
+    r = rng.random()
+    if r < 0.04:
+        method = rng.choice(["undo", "", "Diff", "rollback ", "diff,rollback"])
+    elif r < 0.08:
+        cli_syntax = rng.choice(["", "IOS", "foo", "ios ", "nxos2"])
+    elif r < 0.12:
+        missing = rng.choice([0, 1])
+    return mk_cli(old, new, method, cli_syntax, missing, tag)
 
 
 def cases(rng, tier):
     n = {"quick": 2500, "thorough": 40000, "search": 3000}[tier]
     tagbase = "%012x" % rng.getrandbits(48)
+    if tier != "search":
+        for k, (m, sy, miss) in enumerate([(None, None, None), ("diff", "ios", None), ("rollback", "nxos", None),
+                                           ("rollback", None, None), ("undo", None, None), (None, "foo", None),
+                                           (None, None, 0), ("rollback", "asa", 1)]):
+            yield mk_cli(["hostname A", "interface Gi0/1", " mtu 1500"], ["hostname B", "interface Gi0/1", " mtu 9000"],
+                         m, sy, miss, f"{tagbase}-cli{k}")
+    for i in range(n // 10):
+        yield gen_cli(rng, f"{tagbase}-c{i}", outside=(i % 4 == 3))
     for i in range(n):
         tag = f"{tagbase}-{i}"
         outside = (i % 4 == 3)
@@ -525,6 +581,12 @@ def cases(rng, tier):
 def neighbours(case, rng):
     for k in range(300):
         old, new = list(case["old"]), list(case["new"])
+        if case.get("cli"):
+            side = old if rng.random() < 0.5 else new
+            if side:
+                del side[rng.randrange(len(side))]
+            yield mk_cli(old, new, case["method"], case["cli_syntax"], case["missing"], f"nbc-{os.getpid()}-{k}")
+            continue
         side = old if rng.random() < 0.5 else new
         if side and rng.random() < 0.6:
             del side[rng.randrange(len(side))]
@@ -543,6 +605,8 @@ def nontrivial(case):
 
 
 def describe(case):
+    if case.get("cli"):
+        return {k: case[k] for k in ("cli", "old", "new", "method", "cli_syntax", "missing", "plain")}
     return {k: case[k] for k in ("old", "new", "oform", "nform", "syntax", "plain")}
 
 
@@ -552,6 +616,11 @@ def buckets(case, ans):
            "answer:" + (ans.split("|")[0] if ans.startswith("ok") else ans),
            "syntax:" + (case["syntax"] if case["syntax"] in SYNTAXES else "<invalid>"),
            "form-old:" + case["oform"], "form-new:" + case["nform"]]
+    if case.get("cli"):
+        out.append("cli:-m " + str(case["method"]) if case["method"] in (None, "diff", "rollback") else "cli:-m <invalid>")
+        out.append("cli:-s " + str(case["cli_syntax"]) if case["cli_syntax"] in [None] + SYNTAXES else "cli:-s <invalid>")
+        if case["missing"] is not None:
+            out.append("cli:file-missing")
     po, pn = set(parse_paths(cfg_lines(case["old"]))), set(parse_paths(cfg_lines(case["new"])))
     depth = max([len(p) for p in po | pn] or [1]) - 1
     out.append("max-depth:%d" % min(depth, 4))
@@ -559,6 +628,8 @@ def buckets(case, ans):
     out.append("new-empty" if not pn else "new-nonempty")
     if po == pn:
         out.append("same-config")
+    if ans.startswith("ok") and case.get("cli") and case["method"] == "rollback":
+        po, pn = pn, po
     if ans.startswith("ok"):
         d = wire.dec_strs(ans.split("|")[1])
         out.append("diff-lines:%s" % ("0" if not d else "1-5" if len(d) <= 5 else "6-20" if len(d) <= 20 else ">20"))
@@ -624,7 +695,58 @@ def _real_path(path):
     return f"{SCRATCH}/w{os.getpid()}-{zlib.crc32(path.encode()) % 2}-{side}.cfg"
 
 
+def run_cli(argv):
+    """`ccp <argv>` in this process through the real entry point; answer = the lines of CliApplication.stdout"""
+    import contextlib
+    import io
+    import shlex
+    import sys
+    quiet_ccp()
+    from ciscoconfparse2.cli_script import ccp_script_entry
+    cmd = "ccp_faked " + " ".join(shlex.quote(a) for a in argv)
+    saved_argv = sys.argv
+    try:
+        with contextlib.redirect_stdout(io.StringIO()), contextlib.redirect_stderr(io.StringIO()):
+            app = ccp_script_entry(cmd)
+        return "ok|" + wire.enc_strs(app.stdout)
+    except SystemExit:
+        return "err:SystemExit"
+    except Exception as e:  # noqa: BLE001 - the class is the observation
+        return "err:" + type(e).__name__
+    finally:
+        sys.argv = saved_argv
+
+
+def impl_cli(case):
+    opath, npath = _real_path(case["opath"]), _real_path(case["npath"])
+    made = []
+    try:
+        for k, (lines, path) in enumerate(((case["old"], opath), (case["new"], npath))):
+            if case["missing"] == k:
+                try:
+                    os.remove(path)
+                except OSError:
+                    pass
+                continue
+            _arg("path", lines, path)
+            made.append(path)
+        argv = ["diff"]
+        if case["method"] is not None:
+            argv += ["-m", case["method"]]
+        if case["cli_syntax"] is not None:
+            argv += ["-s", case["cli_syntax"]]
+        return run_cli(argv + [opath, npath])
+    finally:
+        for p in made:
+            try:
+                os.remove(p)
+            except OSError:
+                pass
+
+
 def impl(case):
+    if case.get("cli"):
+        return impl_cli(case)
     ccp = quiet_ccp()
     Diff = ccp.Diff
     made = []
@@ -711,7 +833,33 @@ def check_transform(name, cmds, src, dst):
     return fails
 
 
+def oracle_cli(case, ans):
+    """what `ccp diff` prints must itself transform the one file's config into the other's (judged on the printed
+    lines, not by asking the API); options outside the documented choices and missing files must not print anything"""
+    if case["method"] not in (None, "diff", "rollback") or case["cli_syntax"] not in [None] + SYNTAXES:
+        return [] if ans == "err:SystemExit" else [_fail("invalid -m / -s not rejected by the argument parser", got=ans[:40])]
+    if case["missing"] is not None:
+        return [] if ans.startswith("err:") else [_fail("a missing file did not raise", got=ans[:40])]
+    if not ans.startswith("ok|"):
+        return [_fail("valid input rejected", got=ans[:60])]
+    lines = wire.dec_strs(ans.split("|")[1])
+    po = set(parse_paths(cfg_lines(case["old"])))
+    pn = set(parse_paths(cfg_lines(case["new"])))
+    if case["method"] == "rollback":
+        fails = check_transform("rollback", lines, pn, po)
+    else:
+        fails = check_transform("diff", lines, po, pn)
+    if po == pn and lines:
+        cmds = parse_paths(lines)
+        # name the commands themselves, not the section headers printed above them
+        leaves = [c for i, c in enumerate(cmds) if not (i + 1 < len(cmds) and cmds[i + 1][:len(c)] == c and len(cmds[i + 1]) > len(c))]
+        fails.append(_fail("same configuration but the diff is not empty", line=leaves[:4]))
+    return fails[:4]
+
+
 def oracle(case, ans):
+    if case.get("cli"):
+        return oracle_cli(case, ans)
     bad_type = case["oform"] == "other" or case["nform"] == "other"
     if bad_type:
         return [] if ans == "err:ValueError" else [_fail("ill-typed config not rejected with ValueError", got=ans[:40])]
